@@ -174,7 +174,7 @@ def case_term(variant_bits, prog, quiet, inputs, obs):
     return f"({variant_bits}, {G.coq_prog(prog)}, {coq_bool(quiet)}, {ins}, {status}, {outs})"
 
 
-def coq_eval_codes(ctx, name, case_terms, fn="classify", ty="pcase", timeout=900, shard=60):
+def coq_eval_codes(ctx, name, case_terms, fn="classify", ty="pcase", timeout=900, shard=100):
     """like vlib.coq_eval_mismatches but returns the N code computed for every case (0 agree, 1 disagree, 2 fuel, 3 unsupported);
     -1 for cases of a shard whose evaluation failed."""
     GEN.mkdir(exist_ok=True)
@@ -276,7 +276,7 @@ def run(ctx):
     ctx.assumptions = ["the generated LR parser is not modelled: only its observable AST/behaviour on generated programs",
                        "floats, arrays, function literals, higher-order functions, positional names, emitp/emitf/tee/dump, subroutines, redirects are outside the modelled fragment"]
     forbidden_gate(ctx, ["Base", "C14"])
-    ok, why = check_props(ctx, "C14/Props.v", ["C14/Harness.vo", "C14/Proofs.vo"])
+    ok, why = check_props(ctx, "C14/Props.v", ["C14/Harness.vo", "C14/Proofs.vo", "C14/StackProofs.vo"])
     if not ok:
         ctx.violation({"broken": why}, found_input=False)
     bits = probes(ctx)
